@@ -173,6 +173,27 @@ func graphSites(drv string, g func(h *handler) gdbi.GraphInterface, idParams map
 				close(ch)
 				g(h).BulkAdd(ch)
 			}},
+			// multi-element calls take other code paths than single-element ones (batching, locking, IN lists)
+			site{drv + ".AddVertex#batch", p, func(h *handler, s string) {
+				g(h).AddVertex([]*gdbi.Vertex{
+					{ID: mk(s), Label: "L", Data: map[string]interface{}{"k": "v"}},
+					{ID: okVertex, Label: "L", Data: map[string]interface{}{}},
+					{ID: mk(s) + "2", Label: "L", Data: map[string]interface{}{"k": s}}})
+			}},
+			site{drv + ".AddEdge#batch", "endpoints " + p, func(h *handler, s string) {
+				g(h).AddEdge([]*gdbi.Edge{
+					{ID: "e1", Label: "L", From: mk(s), To: okVertex, Data: map[string]interface{}{}},
+					{ID: "e2", Label: "L", From: okVertex, To: mk(s), Data: map[string]interface{}{"k": s}}})
+			}},
+			site{drv + ".BulkAdd#stream", p, func(h *handler, s string) {
+				ch := make(chan *gdbi.GraphElement, 4)
+				ch <- &gdbi.GraphElement{Graph: graphName, Vertex: &gdbi.Vertex{ID: mk(s), Label: "L", Data: map[string]interface{}{}}}
+				ch <- &gdbi.GraphElement{Graph: graphName, Vertex: &gdbi.Vertex{ID: mk(s) + "2", Label: "L", Data: map[string]interface{}{}}}
+				ch <- &gdbi.GraphElement{Graph: graphName, Edge: &gdbi.Edge{ID: "e1", Label: "L", From: mk(s), To: mk(s) + "2", Data: map[string]interface{}{}}}
+				ch <- &gdbi.GraphElement{Graph: graphName, Edge: &gdbi.Edge{ID: "e2", Label: "L", From: mk(s) + "2", To: mk(s), Data: map[string]interface{}{}}}
+				close(ch)
+				g(h).BulkAdd(ch)
+			}},
 		)
 	}
 	for p, mk := range edgeIDParams {
@@ -181,6 +202,11 @@ func graphSites(drv string, g func(h *handler) gdbi.GraphInterface, idParams map
 			site{drv + ".DelEdge", p, func(h *handler, s string) { g(h).DelEdge(mk(s)) }},
 			site{drv + ".AddEdge", p, func(h *handler, s string) {
 				g(h).AddEdge([]*gdbi.Edge{{ID: mk(s), Label: "L", From: okVertex, To: okVertex, Data: map[string]interface{}{}}})
+			}},
+			site{drv + ".AddEdge#batch", p, func(h *handler, s string) {
+				g(h).AddEdge([]*gdbi.Edge{
+					{ID: mk(s), Label: "L", From: okVertex, To: okVertex, Data: map[string]interface{}{}},
+					{ID: mk(s) + "2", Label: "L", From: okVertex, To: okVertex, Data: map[string]interface{}{}}})
 			}},
 			site{drv + ".BulkAdd#edge", p, func(h *handler, s string) {
 				ch := make(chan *gdbi.GraphElement, 1)
@@ -197,6 +223,12 @@ func graphSites(drv string, g func(h *handler) gdbi.GraphInterface, idParams map
 		}},
 		site{drv + ".AddVertex", "label", func(h *handler, s string) {
 			g(h).AddVertex([]*gdbi.Vertex{{ID: okVertex, Label: s, Data: map[string]interface{}{}}})
+		}},
+		site{drv + ".AddVertex#batch", "label", func(h *handler, s string) {
+			g(h).AddVertex([]*gdbi.Vertex{{ID: okVertex, Label: s, Data: map[string]interface{}{}}, {ID: okVertex + "2", Label: s + "2", Data: map[string]interface{}{}}})
+		}},
+		site{drv + ".AddEdge#batch", "label", func(h *handler, s string) {
+			g(h).AddEdge([]*gdbi.Edge{{ID: "e1", Label: s, From: okVertex, To: okVertex, Data: map[string]interface{}{}}, {ID: "e2", Label: s + "2", From: okVertex, To: okVertex, Data: map[string]interface{}{}}})
 		}},
 		site{drv + ".AddEdge", "label", func(h *handler, s string) {
 			g(h).AddEdge([]*gdbi.Edge{{ID: "e1", Label: s, From: okVertex, To: okVertex, Data: map[string]interface{}{}}})
